@@ -79,9 +79,17 @@ def run_case(case):
     n = len(sig)
     worlds = [fml.world_str(w, sig) for w in range(1 << n)]
 
+    keys = None
+    if rng.random() < 0.4:          # keys with gaps / not starting at 1 (e.g. after deleting conditionals)
+        keys = sorted(rng.sample(range(0, 2 * len(conds) + 3), len(conds)))
+        if rng.random() < 0.3:
+            rng.shuffle(keys)
+        bump('objects_with_non_contiguous_keys')
+    bdesc['keys'] = keys
+
     def mk():
         facts = [t if rng.random() < 0.5 else fml.to_pysmt(f) for t, f in zip(facts_txt, facts_ast)] or None
-        bb = impl.mk_bb(sig, conds)
+        bb = impl.mk_bb(sig, conds, keys=keys)
         return PreOCF.init_system_z(bb, facts=facts, extended=extended)
 
     # ---- construction / refusal
